@@ -253,7 +253,7 @@ var tokValuePool = [][]string{
 
 func genTokB(r *Rng, nmax int) []TokB {
 	n := 1 + r.Intn(nmax)
-	shape := r.Intn(5)
+	shape := r.Intn(7)
 	var out []TokB
 	for i := 0; i < n; i++ {
 		l := 1 + r.Intn(3)
@@ -278,8 +278,22 @@ func genTokB(r *Rng, nmax int) []TokB {
 			t = r.Intn(2)
 		case 4: // other types too
 			t = pick(r, []int{0, 1, 1, 2, 7, 255})
+		case 5, 6: // alternating, then one type flipped (often the last)
+			if i%2 == 1 {
+				t = 0
+			}
 		}
 		out = append(out, TokB{[]byte(v.String()), t})
+	}
+	if shape >= 5 && len(out) > 0 {
+		if len(out)%2 == 0 {
+			out = append(out, TokB{[]byte("z"), 1})
+		}
+		j := len(out) - 1
+		if shape == 6 {
+			j = r.Intn(len(out))
+		}
+		out[j].T = 1 - out[j].T
 	}
 	if shape == 2 && len(out)%2 == 0 {
 		out = out[:len(out)-1]
@@ -322,7 +336,7 @@ func init() {
 		Technique: "deterministic simulation of the client-side index store with storage-fault enumeration (every truncation, single-bit flip, kind byte, byte drop/dup/swap per sampled record) plus seeded multi-fault and free-form search; model decoder as oracle",
 		Rule:      "case = one (password bytes, index bytes) pair handed to Tokenize after a storage fault; distinct by hash of the pair; non-trivial = the pair differs from the intact record or is free-form",
 		Assumptions: []string{"a character is an element of strings.Split(s, \"\") (the unit the API documents)", "surplus bytes after a character-kind byte are unspecified (don't-care)"},
-		Episodes:    map[string]int{"quick": 480, "thorough": 16000},
+		Episodes:    map[string]int{"quick": 4800, "thorough": 60000},
 		TwiceEvery:  7,
 		Real:        []string{"spg.Tokenize", "strings.Split/Join (std)"},
 		Simulated:   []string{"the byte store holding the index next to the password (truncation, bit flips, byte drop/dup/swap, garbage, kind byte), password truncation/extension/invalid UTF-8"},
@@ -528,8 +542,28 @@ func roundTrip(c *Ctx, p *spg.Password, origin string) bool {
 		return false
 	}
 	c.Count("kind_"+fmt.Sprint(mtokKind(ts)), 1)
+	// an index handed out earlier must not change when later indices are made
+	for _, k := range heldIndices {
+		if !bytes.Equal(k.live, k.copy) {
+			c.Violate("index-changed-later", "", "an index returned earlier by MakeIndices was %v and reads %v after a later MakeIndices call (%s)", k.copy, []byte(k.live), origin)
+			heldIndices = nil
+			return false
+		}
+	}
+	if len(heldIndices) < 6 {
+		heldIndices = append(heldIndices, heldIndex{ix, append([]byte{}, ix...)})
+	} else {
+		heldIndices[int(p.Entropy*7)%6&7%6] = heldIndex{ix, append([]byte{}, ix...)}
+	}
 	return true
 }
+
+type heldIndex struct {
+	live spg.Indices
+	copy []byte
+}
+
+var heldIndices []heldIndex
 
 func brief(ts []Tok) string {
 	s := fmt.Sprint(ts)
@@ -558,14 +592,14 @@ func init() {
 		Technique: "deterministic simulation (fault-free configuration of the simulated index store): every password produced by seeded simulated generations and every token sequence built through Tokenize is written and read back",
 		Rule:      "case = one token sequence (from a simulated generation or built through Tokenize) encoded with MakeIndices and decoded with Tokenize; distinct by hash of the typed token sequence; non-trivial = at least one token of more than one character or a non-atom token or a multi-byte character",
 		Assumptions: []string{"a character is an element of strings.Split(s, \"\")", "zero-length tokens are outside the property (don't-care)", "token sequences with arbitrary types are obtained through Tokenize with a full index, the only public constructor besides Generate"},
-		Episodes:    map[string]int{"quick": 640, "thorough": 24000},
+		Episodes:    map[string]int{"quick": 12000, "thorough": 160000},
 		TwiceEvery:  5,
 		Real:        []string{"spg.Tokens.MakeIndices/Kind", "spg.Tokenize", "CharRecipe.Generate", "WLRecipe.Generate", "NewWordList"},
 		Simulated:   []string{"crypto/rand.Reader (seeded tape)", "alphabet/word index order (H2/H3)", "index byte store (no faults in this check)"},
 		Gen: func(seed uint64, tier string) interface{} {
 			r := Sub(seed, "config")
 			s := &C11Spec{N: 4, Tape: TapeSpec{Mode: "choice", Seed: mix(seed, "tape"), Default: "bias"}, Orders: genOrders(r, seed)}
-			switch k := r.Intn(10); {
+			switch k := r.Intn(13); {
 			case k < 3:
 				s.Kind = "char"
 				cc := genCharCfg(r, charOpt{maxLen: 12, maxReq: 4, noEmptied: true})
@@ -594,6 +628,7 @@ func init() {
 		Run: func(c *Ctx, si interface{}) {
 			s := si.(*C11Spec)
 			curOrders = s.Orders
+			heldIndices = nil
 			switch s.Kind {
 			case "synth":
 				ts := tokBtoTok(s.Synth)
